@@ -895,10 +895,12 @@ def gen_valid(T, r, xsd='1.1'):
                 '0e0', '-0.0', '00.5', '1E+2', '3.4028234e38', '1e-37', '1e-38', '1.5e-45', '16777216', '16777217',
                 '0.1e-5', '1.17549435e-38']
         if p == 'dbl':
-            pool += ['1e308', '1e309', '4.9e-324', '1e-400', '1.7976931348623157e308', '123456789012345680000',
+            pool += ['1e308', '1e309', '4.9e-324', '1e-400', '1.7976931348623157e308', '123456789012345680000', '3.4028235E38',
                      '0.30000000000000004', '9007199254740993', '1.23456789012']
         else:
-            pool += ['1.23456789', '3.4028236e38', '1e39', '0.1', '16777219']
+            pool += ['1.23456789', '3.4028236e38', '1e39', '0.1', '16777219',
+                     # the largest finite xs:float, exactly, in several spellings
+                     '3.4028235E38', '-3.4028235e38', '3.4028234663852886e38', '340282346638528860000000000000000000000']
         if xsd == '1.1':
             pool += ['+INF']
         return r.choice(pool)
